@@ -276,7 +276,11 @@ std::vector<Value> FilterUtility::GetFilterTargets(const QueryDescription& qd, c
 			bool targeted = false;
 			std::vector<ConfigObject::Ptr> targets;
 
-			if (dynamic_cast<ConfigObjectTargetProvider*>(provider.get())) {
+			/* EvaluateFilter() overwrites these names with the target object, so they are no constants. */
+			bool shadowedVars = filter_vars && (filter_vars->Contains("obj") || filter_vars->Contains("host")
+				|| filter_vars->Contains("service") || (!variableName.IsEmpty() && filter_vars->Contains(variableName)));
+
+			if (!shadowedVars && dynamic_cast<ConfigObjectTargetProvider*>(provider.get())) {
 				auto dict (dynamic_cast<DictExpression*>(ufilter.get()));
 
 				if (dict) {
